@@ -79,7 +79,7 @@ def run_impl(cls_name, rhs, mask, t0, tf, dt, y0, ops, dense=False):
 def model_line(kind, cls_name, rhs, mask, t0, tf, dt, y0, ops):
     return "fixedrun %s %s %d %s %s %s %s %s %s %s %s %s" % (
         kind, cls_name, rhs.n, ",".join(map(str, mask)) if mask is not None else "-", rhs.proto(), q(EPS), q(TOLEPS),
-        q(t0), q(tf), q(dt), qlist(y0), ",".join(("i" + q(o[1])) if o[0] == "i" else "r" for o in ops))
+        q(t0), q(tf), q(dt), qlist(y0), ",".join(("i" + q(o[1])) if o[0] == "i" else ("f%d@%s" % (o[1], q(o[2]))) if o[0] == "f" else "r" for o in ops))
 
 
 def parse_model(out, n):
@@ -141,12 +141,15 @@ def exact_increment(cls_name, rhs, mask, t, y, h):
     return [h * sum((b[j] * ks[j][i] for j in range(len(ks))), Fr(0)) for i in range(len(y))]
 
 
-def steps_oracle(ctx, inp, ode, rhs, mask):
+def steps_oracle(ctx, inp, ode, rhs, mask, max_steps=None):
     """every recorded state is its predecessor advanced by one step of the scheme over the recorded interval"""
     ts = [Fr(float(v)) for v in ode.t]
     ys = np.array(ode.y, dtype=np.float64).reshape(len(ts), -1)
     worst, where = 0.0, None
-    for k in range(len(ts) - 1):
+    ks = list(range(len(ts) - 1))
+    if max_steps is not None and len(ks) > max_steps:      # the first, the last and evenly spread steps in between
+        ks = sorted(set([0, len(ks) - 1] + [int(i * (len(ks) - 1) / (max_steps - 1)) for i in range(max_steps)]))
+    for k in ks:
         y = [Fr(float(v)) for v in ys[k]]
         d = exact_increment(inp["method"], rhs, mask, ts[k], y, ts[k + 1] - ts[k])
         scale = max([1.0] + [abs(float(v)) for v in y])
@@ -194,3 +197,136 @@ def whole_run_block(ctx, rng, nplans, kinds=None):
         if len(ode.t) >= 3:
             ctx.nontrivial((inp["method"], inp["plan"], inp["t0"], inp["dt"], inp["rhs"]))
     return len(cases)
+
+
+# ---------------------------------------------------------------------------------------------------------------------------
+# faults inside whole fixed-step runs (C12: fault_leaves_prefix_of_samples) and adaptive explicit runs judged step by step
+
+class RunFault(Exception):
+    pass
+
+
+class FaultyRHS:
+    """the polynomial right-hand side, raising once at the k-th call"""
+    def __init__(self, rhs):
+        self.rhs, self.calls, self.fault_at = rhs, 0, None
+
+    def __call__(self, t, y, **kw):
+        self.calls += 1
+        if self.fault_at is not None and self.calls == self.fault_at:
+            raise RunFault("fault at call %d" % self.calls)
+        return self.rhs(t, y)
+
+
+def fault_run_block(ctx, rng, nplans):
+    """a fault at a random right-hand-side evaluation of a fixed-step run: the samples left are exactly a prefix of the samples of
+    the fault-free run of the Lean whole-run model, and the resumed call records what the model records for the same history
+    (DV.Run.integrateFault: the call abandoned in the same integrator call, then integrate(T))"""
+    jobs, lines = [], []
+    for name in RK_FIXED + SPLIT:
+        for _ in range(nplans):
+            kind, t0, tf, dt, ops = dyadic_plan(rng)
+            T = ops[-1][1] if ops[-1][0] == "i" else tf
+            if name in SPLIT:
+                rhs, mask = separable_rhs(rng, rng.choice([1, 2])); mkind = "split"
+            else:
+                rhs, mask = linear_rhs(rng, rng.choice([1, 2])), None; mkind = "rk"
+            y0 = [Fr(rng.randint(-16, 16), 16) for _ in range(rhs.n)]
+            inp = dict(kind="whole-run-fault", method=name, rhs=rhs.proto(), t0=str(t0), tf=str(tf), T=str(T), dt=str(dt), y0=[str(v) for v in y0], kick_mask=mask)
+            try:
+                probe = FaultyRHS(rhs)
+                run_impl(name, probe, mask, t0, tf, dt, y0, [("i", T)])
+                total = probe.calls
+                if total < 4:
+                    continue
+                f = FaultyRHS(rhs)
+                ode = de.OdeSystem(f, y0=np.array([float(v) for v in y0]), t=(float(t0), float(tf)), dt=float(dt), dense_output=rng.random() < 0.5)
+                if mask is not None:
+                    ode.set_method(getattr(I, name), staggered_mask=np.array(mask, dtype=bool))
+                else:
+                    ode.set_method(getattr(I, name))
+                f.fault_at = f.calls + rng.randint(1, max(1, total - f.calls))
+                inp["fault_at_call"] = f.fault_at
+                raised = None
+                try:
+                    ode.integrate(float(T))
+                except de.exception_types.FailedIntegration as e:
+                    raised = type(e.__cause__).__name__ if e.__cause__ is not None else "no-cause"
+                except BaseException as e:
+                    raised = "other:" + type(e).__name__
+                if raised is None:
+                    ctx.count("whole-run-fault:not-reached")
+                    continue
+                ctx.oracle("failure-is-integration-failure-with-cause", raised == "RunFault", dict(inp, raised=raised), what="a raising right-hand side surfaced as %r" % (raised,))
+                pt = [Fr(float(v)) for v in ode.t]
+                py = np.array(ode.y, dtype=np.float64).reshape(len(pt), -1).copy()
+                ctx.oracle("times-and-states-paired", len(ode.t) == len(ode.y), inp, what="after the fault len(t) = %d, len(y) = %d" % (len(ode.t), len(ode.y)))
+                steps_oracle(ctx, inp, ode, rhs, mask)
+                f.fault_at = None
+                ode.integrate(float(T))
+            except Exception as e:
+                ctx.oracle("fault-scenario-runs", False, inp, what="scenario raised %r" % (e,))
+                continue
+            jobs.append((inp, ode, rhs, mask, pt, py))
+            lines.append(model_line(mkind, name, rhs, mask, t0, tf, dt, y0, [("i", T)]))
+            # the history as it happened: a call abandoned in its (len(prefix) - 1)-th integrator call, then the resumed call
+            lines.append(model_line(mkind, name, rhs, mask, t0, tf, dt, y0, [("f", len(pt) - 1, T), ("i", T)]))
+            ctx.count("whole-run-fault:" + name)
+    outs = ctx.driver(lines)
+    for k, (inp, ode, rhs, mask, pt, py) in enumerate(jobs):
+        full = parse_model(outs[2 * k], rhs.n)
+        ok = full is not None and len(pt) <= len(full[0]) and full[0][:len(pt)] == pt
+        worst = None
+        if ok:
+            scale = max(1.0, max(abs(float(v)) for row in full[1] for v in row))
+            worst = max(abs(float(Fr(float(a)) - b)) for ra, rb in zip(py, full[1][:len(pt)]) for a, b in zip(ra, rb)) / scale
+            ok = worst <= 1e-11 * max(1, len(pt))
+        ctx.corr("samples-after-fault-are-prefix-of-fault-free-run", ok, dict(inp, kept=len(pt), model_len=None if full is None else len(full[0]), worst_state_diff=worst,
+                                                                              impl_t=[float(v) for v in pt][-4:], model_t=None if full is None else [float(v) for v in full[0]][:len(pt)][-4:]))
+        ctx.oracle("recorded-prefix-is-prefix-of-fault-free-run", ok, dict(inp, kept=len(pt), worst_state_diff=worst), key="fault-prefix-differs",
+                   what="the samples left by the failed call are not the first %d samples of the fault-free run" % len(pt))
+        compare(ctx, "resumed-run-with-states", dict(inp, resumed_from=str(pt[-1])), ode, parse_model(outs[2 * k + 1], rhs.n), rhs.n)
+        if len(pt) >= 2:
+            ctx.nontrivial((inp["method"], inp["t0"], inp["dt"], inp["fault_at_call"]))
+
+
+ADAPTIVE_EXPLICIT = ["RK45CKSolver", "DOPRI45", "HeunEulerSolver", "RK8713MSolver"]
+
+
+def adaptive_steps_block(ctx, rng, nplans, faults=False):
+    """adaptive explicit methods: the accepted steps are not predictable in exact arithmetic, but every recorded state must still be its
+    predecessor advanced by ONE step of the scheme over the recorded interval (DV.Run.ysOf), whatever was rejected in between, also for
+    the samples left by a fault"""
+    for name in ADAPTIVE_EXPLICIT:
+        for _ in range(nplans):
+            kind, t0, tf, dt, ops = dyadic_plan(rng)
+            rhs = linear_rhs(rng, rng.choice([1, 2]))
+            y0 = [Fr(rng.randint(-16, 16), 16) for _ in range(rhs.n)]
+            tol = rng.choice([1e-4, 1e-7, 1e-10])
+            if name == "HeunEulerSolver":      # second order: tight tolerances mean tens of thousands of steps
+                tol = max(tol, 1e-5)
+            inp = dict(kind="adaptive-run", plan=kind, method=name, rhs=rhs.proto(), t0=str(t0), tf=str(tf), dt=str(dt), y0=[str(v) for v in y0], tol=tol,
+                       ops=[(o[0], str(o[1])) if o[0] == "i" else ("r",) for o in ops])
+            f = FaultyRHS(rhs)
+            try:
+                ode = de.OdeSystem(f, y0=np.array([float(v) for v in y0]), t=(float(t0), float(tf)), dt=float(dt), rtol=tol, atol=tol, dense_output=rng.random() < 0.3)
+                ode.set_method(getattr(I, name))
+                if faults:
+                    f.fault_at = f.calls + rng.randint(2, 60)
+                    inp["fault_at_call"] = f.fault_at
+                for op in ops:
+                    try:
+                        ode.integrate(float(op[1])) if op[0] == "i" else ode.reset()
+                    except de.exception_types.FailedIntegration as e:
+                        if not isinstance(e.__cause__, RunFault):
+                            raise
+                        ctx.count("adaptive-run:fault-hit")
+                        break
+            except Exception as e:
+                ctx.oracle("adaptive-run-completes", False, inp, what="run raised %r" % (e,))
+                continue
+            ctx.oracle("times-and-states-paired", len(ode.t) == len(ode.y), inp, what="len(t) = %d, len(y) = %d" % (len(ode.t), len(ode.y)))
+            steps_oracle(ctx, inp, ode, rhs, None, max_steps=24 if ctx.quick() else 200)
+            ctx.count("adaptive-run:" + name)
+            if len(ode.t) >= 3:
+                ctx.nontrivial((name, kind, inp["t0"], inp["dt"], tol))
